@@ -127,8 +127,15 @@ def bisect(ctx, rep):
           and isinstance(s.value.func, ast.Name) and s.value.func.id == fp and s.value.args and isinstance(s.value.args[0], ast.Name)
           and s.value.args[0].id == gname]
     fgname = fg[0].targets[0].id if fg else None
-    rep.check('D2.contain', fn, mids[0] if mids else lp, bool(mids) and bool(fg), 'guess = (xmin + xmax) / 2 and fguess = f(guess)',
-              'the iterate is not the midpoint of the current bracket', construct='midpoint')
+    fcalls = [c for c in ast.walk(lp) if isinstance(c, ast.Call) and isinstance(c.func, ast.Name) and c.func.id == fp and c.args
+              and isinstance(c.args[0], ast.Name) and c.args[0].id == gname]
+    others = [c for c in ast.walk(lp) if isinstance(c, ast.Call) and isinstance(c.func, ast.Name) and c.func.id == fp and c not in fcalls]
+    if mids and (fg or fcalls) and not others:
+        rep.ok('D2.contain', fn, mids[0], 'guess = (xmin + xmax) / 2 and f is evaluated at guess', construct='midpoint')
+    elif mids and others:
+        rep.bad('D2.contain', fn, others[0], f'f is evaluated at `{short(others[0].args[0], 40) if others[0].args else "?"}`, not at the midpoint of the current bracket', construct='midpoint')
+    else:
+        rep.undecided('D2.contain', fn, lp, 'the form guess = (xmin + xmax) / 2 was not found in the loop', construct='midpoint')
     stores = [s for s in ast.walk(lp) if isinstance(s, ast.Assign) and isinstance(s.targets[0], (ast.Subscript, ast.Name))]
     n_moves = 0
     for s in stores:
@@ -165,7 +172,9 @@ def bisect(ctx, rep):
                 op = type(a[0].ops[0]).__name__
                 good = op in (want, want[:-1]) and isinstance(a[1], ast.Name) and a[1].id == gname and isinstance(a[2], ast.Name) and a[2].id in al and al[a[2].id] == end
         rep.check('D2.contain', fn, s, good, f'{end} moves to the midpoint exactly where f(guess) {"<=" if end == lo else ">="} 0', why)
-    rep.floor('D2.contain', 'bracket updates in bisect', n_moves, 2)
+    if n_moves == 0:
+        rep.undecided('D2.contain', fn, lp, 'no store into the bracket ends inside the loop of bisect itself (moved into a helper?): containment of the iterates is not derived',
+                      construct='bracket updates')
     rets = [n for n in walk_no_nested(fn.node) if isinstance(n, ast.Return)]
     rep.check('D2.contain', fn, rets[-1] if rets else fn.node.name, bool(rets) and _is_midpoint(rets[-1].value, al, lo, hi),
               'returns the midpoint of the final bracket', 'the result is not the midpoint of the final bracket', construct='result')
@@ -175,20 +184,37 @@ def bisect(ctx, rep):
     dv = const_value(d) if d is not None else None
     rep.check('D5.tol', fn, d if d is not None else fn.node.name, isinstance(dv, float) and 0 < dv <= 1e-8, f'default tolerance {dv}',
               f'default tolerance is {dv}, the stated accuracy is 1e-8', construct='default tolerance')
-    brk = [s for s in ast.walk(lp) if isinstance(s, ast.If) and any(isinstance(x, ast.Break) for x in s.body)]
-    good = False
-    if brk and tolp:
-        t = brk[0].test
-        if isinstance(t, ast.Compare) and len(t.ops) == 1 and isinstance(t.ops[0], (ast.Lt, ast.LtE)) \
-                and isinstance(t.comparators[0], ast.Name) and t.comparators[0].id == tolp[0]:
+    exits = [s for s in ast.walk(lp) if isinstance(s, ast.If) and any(isinstance(x, (ast.Break, ast.Return)) for b in s.body for x in ast.walk(b))]
+    if not exits:
+        rep.ok('D5.tol', fn, lp, 'no early exit: the loop always runs maxiter halvings', construct='exit test')
+    for ex in exits:
+        verdict = 'unknown'
+        t = ex.test
+        if tolp and isinstance(t, ast.Compare) and len(t.ops) == 1 and isinstance(t.ops[0], (ast.Lt, ast.LtE, ast.Gt, ast.GtE)):
             from ..idioms import resolve
-            pieces = [t.left] + [resolve(fn.node, x) for x in ast.walk(t.left) if isinstance(x, ast.Name) and x.id not in al]
+            left, right = t.left, t.comparators[0]
+            if isinstance(t.ops[0], (ast.Gt, ast.GtE)):
+                left, right = right, left
+            left = resolve(fn.node, left) if isinstance(left, ast.Name) else left
+            pieces = [left] + [resolve(fn.node, x) for x in ast.walk(left) if isinstance(x, ast.Name) and x.id not in al]
             names = {x.id for pc in pieces for x in ast.walk(pc) if isinstance(x, ast.Name)}
             width = any(isinstance(x, ast.BinOp) and isinstance(x.op, ast.Sub) for pc in pieces for x in ast.walk(pc))
-            is_max = any(isinstance(x, ast.Call) and call_name(x) in ('max', 'amax') for x in ast.walk(t.left))
-            good = width and is_max and all(al.get(n) in (lo, hi) for n in names if n in al) and len([n for n in names if n in al]) >= 2
-    rep.check('D5.tol', fn, brk[0] if brk else lp, good, 'stops when the widest bracket is below tol',
-              'the exit test does not compare the (maximal) bracket width with the tolerance', construct='exit test')
+            ends = [n for n in names if al.get(n) in (lo, hi)]
+            reds = {call_name(x) for pc in pieces for x in ast.walk(pc) if isinstance(x, ast.Call)}
+            if width and len(ends) >= 2 and not any(isinstance(x, ast.Call) and any(tg.kind == 'proj' for tg in ctx.cg.targets(fn, x)) for pc in pieces for x in ast.walk(pc)):
+                is_tol = isinstance(right, ast.Name) and right.id == tolp[0]
+                if is_tol and reds & {'max', 'amax'} and not reds & {'min', 'amin', 'mean', 'median'}:
+                    verdict = 'good'
+                elif reds & {'min', 'amin', 'mean', 'median'} and not reds & {'max', 'amax'}:
+                    verdict = 'bad: the exit looks at the narrowest / average bracket: lanes that have not converged are cut off'
+                elif const_value(right) is not None and isinstance(const_value(right), (int, float)) and const_value(right) > 1e-8:
+                    verdict = f'bad: the exit compares the width with {const_value(right)}, not with the tolerance'
+        if verdict == 'good':
+            rep.ok('D5.tol', fn, ex, 'stops when the widest bracket is below tol', construct='exit test')
+        elif verdict.startswith('bad'):
+            rep.bad('D5.tol', fn, ex, 'the exit test does not compare the (maximal) bracket width with the tolerance: ' + verdict[5:], construct='exit test')
+        else:
+            rep.undecided('D5.tol', fn, ex, f'early exit on `{short(t, 60)}`: not recognised as a test of the bracket width', construct='exit test')
 
 
 def _sym(op):
